@@ -223,6 +223,9 @@ RecordFlowFindings(proto, fs, rec, fl) ==
             ELSE {<<"C13", "common", a[1], "differs:" \o proto>>})
          ELSE IF nat # cands THEN {}      \* some occurrence has a reduced/odd width: no verdict on this aspect
          ELSE IF fl[a[1]] = Absent THEN {<<"C13", "common", a[1], "absent-but-present:" \o proto>>}
+         \* (a record with several protocol fields, one of them holding 255 itself: the unassigned one was projected)
+         ELSE IF a[1] = "proto" /\ fl.proto = <<255>> /\ fl.pname = "unknown" /\ \E v \in nat : v[1] >= 145 /\ v[1] <= 254
+           THEN {<<"C13", "common", "proto", "unassigned-as-255:" \o proto>>}
          ELSE IF fl[a[1]] \notin nat THEN
            (IF a[1] = "proto" /\ fl.proto = <<255>> /\ \E v \in nat : v[1] >= 145
               THEN {<<"C13", "common", "proto", "unassigned-as-255:" \o proto>>}
